@@ -27,6 +27,7 @@ DT_VARIANTS = {
 ES_VARIANTS = {
     "esu": ("95048ESU000W0001", "2525B"),
     "emu_old": ("95048EMU000W0001", "04046"),
+    "esu_v2": ("95048ESU000W0001", "2525E"),   # firmware with the 12-byte eco schedules (read over Modbus)
 }
 ES_RUNTIME_LEN = 150
 ES_SETTINGS_LEN = 90
@@ -49,7 +50,9 @@ def build(goodwe, family, variant, transport, seed, fill):
         inv = goodwe.DT(C.HOST, port, 0, 1, 1)
     else:
         serial, fw = ES_VARIANTS[variant]
-        dev = devices.make_es(serial=serial, firmware=fw, seed=seed, fill=fill)
+        dev = devices.make_es(serial=serial, firmware=fw, seed=seed, fill=fill, eco_v2_modbus=(variant == "esu_v2"))
+        if variant == "esu_v2":
+            dev.comm_addr = None
         dev.blocks[0x0106] = lambda tx, dev=dev: es_block(dev, 0x0106)
         dev.settings_block = None
         dev.blocks[0x0109] = lambda tx, dev=dev: es_block(dev, 0x0109)
